@@ -36,6 +36,7 @@ FAMS = ['OO', 'OI', 'IO', 'LO', 'OL', 'UO', 'QO', 'OU', 'OQ']
 def must_see(tier):
     m = {'ledger-checks': 20000, 'teardown-checks': 100,
          'valgrind:evaluations': 500, 'cycle-collections': 300,
+         'resolve-with-successor': 10,
          'height>=3': 10, 'evict-reload': 20}
     for op in ('setitem', 'delitem', 'pop', 'popitem', 'setdefault', 'update',
                'clear', 'get', 'keys-range', 'iterator-partial',
@@ -469,21 +470,37 @@ def run_history(fam, kind, rng, rec, h):
                     op = 'resolve'
                     ks = sorted(rng.sample(range(nk), 4))
 
+                    # a leaf in the middle of a chain: all three states
+                    # name the same successor, which the merge hands on
+                    nxt = cls() if rng.random() < .6 else None
+
                     def stt(idx):
                         if is_mapping:
                             flat = []
                             for i in idx:
                                 flat += [K(i), V(i % nv)]
-                            return (tuple(flat),)
-                        return (tuple(K(i) for i in idx),)
+                            flat = tuple(flat)
+                        else:
+                            flat = tuple(K(i) for i in idx)
+                        return (flat,) if nxt is None else (flat, nxt)
                     s_old = stt(ks[:2])
                     s_com = stt(ks[:3])
                     s_new = stt(ks[:2] + ks[3:])
+                    rc_next0 = sys.getrefcount(nxt) if nxt is not None else 0
                     try:
                         x = cls()._p_resolveConflict(s_old, s_com, s_new)
                         del x
                     finally:
                         del s_old, s_com, s_new
+                        if nxt is not None:
+                            rec.ev('resolve-with-successor')
+                            drift = sys.getrefcount(nxt) - rc_next0 + 3
+                            if drift:
+                                rec.violation(
+                                    'successor-leaf-reference-drift-in-merge',
+                                    drift=drift, history=brief(log[-10:], 300),
+                                    **desc)
+                            del nxt
                 elif r < 0.955 and fam.vc != 'O' and W.tracked_keys:
                     # a state that turns out unusable half-way: everything
                     # taken before the bad datum must be given back
